@@ -22,7 +22,8 @@ PKey(r)      == <<r.asset, r.source, r.ts>>
 Feeders(s)   == s.oracle.feeders
 ActiveFeeder(s, a) == a \in DOMAIN Feeders(s) /\ Feeders(s)[a]
 
-Expired(r, now, h, exp, life) == (N(r.ts) ++ N(exp)) \prec N(now) \/ (N(r.height) ++ N(life)) \prec N(h)
+\* exp / life are Num values (governance may set them beyond TLC's integers)
+Expired(r, now, h, exp, life) == (N(r.ts) ++ exp) \prec N(now) \/ (N(r.height) ++ life) \prec N(h)
 Expire(P, now, h, exp, life)  == {r \in P : ~Expired(r, now, h, exp, life)}
 
 \* the entries one feed message writes at (time, height); if it names a key twice the last one wins
